@@ -1319,6 +1319,31 @@ func genMarshalJunk(ctx *Ctx, emit func(any, string)) {
 		{jstr("NOT"), {T: "stack", Kind: "AND", Els: []*JNode{jlist(jstr("OR"))}}, {T: "cond", Kw: "k", Op: &OpDesc{Builtin: 1}, Ex: jstr("v")}},
 		{jstr("NOT"), {T: "cond", Kw: "k"}, {T: "cond", Kw: "k", Op: &OpDesc{Builtin: 1}, Ex: jlist(jstr("AND"))}},
 	}
+	// size is no limit: a row of 1500 scalars, 1100 nested rows, rows nested 150 deep,
+	// an envelope 40 levels deep
+	{
+		wide := []*JNode{jstr("or")}
+		rows := []*JNode{jstr("and")}
+		for i := 0; i < 1500; i++ {
+			wide = append(wide, jint(int64(i%50)))
+		}
+		for i := 0; i < 1100; i++ {
+			if i%2 == 0 {
+				rows = append(rows, jlist(jstr("CONDITION"), jstr("k"), eq, jint(int64(i%9))))
+			} else {
+				rows = append(rows, jlist(jstr("not"), jstr("x")))
+			}
+		}
+		deep := jlist(jstr("list"), jstr("bottom"))
+		for d := 0; d < 150; d++ {
+			deep = jlist(jstr([]string{"and", "or", "NOT"}[d%3]), jint(int64(d)), deep)
+		}
+		env := jlist(jstr("AND"), jstr("a"))
+		for d := 0; d < 40; d++ {
+			env = jlist(env)
+		}
+		cat = append(cat, wide, rows, []*JNode{jstr("and"), deep}, []*JNode{env})
+	}
 	for _, in := range cat {
 		emit(&JKInput{In: in}, "exhaustive")
 		emit(&JKInput{Recv: &JNode{T: "stack", Kind: "AND", Els: []*JNode{jstr("old")}}, In: in}, "exhaustive")
